@@ -2,7 +2,10 @@
 
 Everything is defined over plain JSON descriptors.
 
-Values          names are str, attributes are str or int.
+Values          names are str, attributes are str or int; the UL universes add list / dict valued attributes (what
+                from_dict produces for nested lists): a literal compares with ==, ordering predicates and str
+                methods raise on them (=> not matching).  contains / isin are not asked about such values (the
+                statement does not say whether `"x" in ["x"]` is "contains").
 Predicate  B := ["p", family, arg] | ["not", B] | ["and", B, B+] | ["or", B, B+]      (and/or are n-ary)
 Name query NQ := ["lit", s] | ["none"] | ["bool", B] | ["fn", kind]         (kind: a raw python callable)
 Attr query AQ := ["lit", v] | ["bool", B] | ["fn", kind]
@@ -53,6 +56,8 @@ def _str(v):
 def _same_kind(v, a):
     if v is None or a is None or isinstance(v, str) != isinstance(a, str):
         raise Raised()              # '<' between str and int, or with None, raises TypeError
+    if isinstance(v, (list, dict)) or isinstance(a, (list, dict)):
+        raise Raised()              # '<' between a list / dict valued attribute and a number raises TypeError
 
 
 def _eq(v, a):
